@@ -35,29 +35,38 @@ Definition span_prop (texts : list (list N)) (s : ospan) : bool :=
   | None => false    (* the diagnostic names a file that does not contain the text *)
   end.
 
-(* the first span of the first diagnostic is the planted token *)
-Definition planted_prop (texts : list (list N)) (pfile poff : nat) (pend : option nat) (first : option ospan) : bool :=
-  match first, nth_error texts pfile with
-  | Some s, Some t =>
+(* the leading spans of the first diagnostic are, in this order, the expected locations: the planted
+   token first, then the secondary locations the report site passes (file index, start, end if known) *)
+Definition expected_span (texts : list (list N)) (e : nat * nat * option nat) (s : ospan) : bool :=
+  let '(pfile, poff, pend) := e in
+  match nth_error texts pfile with
+  | Some t =>
       Nat.eqb (o_file s) pfile && Nat.eqb (o_start s) poff &&
       pair_eqb (linecol_at t poff) (o_sl s, o_sc s) &&
-      match pend with Some e => Nat.eqb (o_end s) e | None => true end
-  | _, _ => false
+      match pend with Some e' => Nat.eqb (o_end s) e' | None => true end
+  | None => false
+  end.
+
+Fixpoint planted_prop (texts : list (list N)) (exp : list (nat * nat * option nat)) (spans : list ospan) : bool :=
+  match exp, spans with
+  | [], _ => true
+  | e :: es, s :: ss => expected_span texts e s && planted_prop texts es ss
+  | _ :: _, [] => false
   end.
 
 Inductive case :=
-(* texts, all spans in report order (the first one is the first span of the first diagnostic),
-   planted file index, planted offset, expected end offset if known *)
-| CPlanted (texts : list (list N)) (spans : list ospan) (pfile poff : nat) (pend : option nat)
+(* texts; all spans in report order (the spans of the first diagnostic come first, in the order the
+   handler received them); the expected leading locations, the planted token first *)
+| CPlanted (texts : list (list N)) (spans : list ospan) (exp : list (nat * nat * option nat))
 (* command line, bare format: text of the planted file, planted offset, the line and column printed
    in the 'file:line:col' prefix of the first output line *)
 | CCli (text : list N) (poff : nat) (line col : Z).
 
 Definition judge (c : case) : N :=
   match c with
-  | CPlanted texts spans pfile poff pend =>
+  | CPlanted texts spans exp =>
       code_of (forallb (span_corr texts) spans)
-              (forallb (span_prop texts) spans && planted_prop texts pfile poff pend (hd_error spans))
+              (forallb (span_prop texts) spans && negb (Nat.eqb (length exp) 0) && planted_prop texts exp spans)
   | CCli text poff line col =>
       code_of (pair_eqb (repr text poff) (line, col))
               (Nat.leb poff (length text) && pair_eqb (linecol_at text poff) (line, col))
